@@ -46,11 +46,15 @@ func (h *ReaderSrv) ReadPat(ctx context.Context, r io.Reader, call int, pattern 
 		buf.Write(b)
 		if pattern == 3 {
 			for k := 0; k < 2; k++ {
+				// user code can be pre-empted between two reads: the upload request may
+				// complete (and its body be closed) in between
+				h.s.Yield("between-reads")
 				n, err := r.Read(make([]byte, 16))
 				extra += fmt.Sprintf(" again%d=%d,%v", k, n, err)
 			}
 		}
 		if pattern == 4 {
+			h.s.Yield("before-close")
 			if c, ok := r.(io.Closer); ok {
 				extra += fmt.Sprintf(" close=%v", c.Close())
 			}
